@@ -504,7 +504,9 @@ func (fr *Frame) safe(kind string, reach, goal string, pos token.Pos) {
 		return
 	}
 	vc := fr.vc
-	if vc.noSafety {
+	if vc.noSafety && vc.safetyOnly[kind] && fr.parent == nil {
+		// nosafety with an exception: this kind of panic is checked in the function's own body
+	} else if vc.noSafety {
 		// contract without safety obligations: absence of panics is assumed here
 		// (and says so in the evidence); only the explicit clauses are checked
 		vc.assume(sImp(reach, goal))
@@ -634,7 +636,9 @@ func (fr *Frame) step(b *ssa.BasicBlock, ins ssa.Instruction, st *State, reach s
 	case *ssa.Next:
 		fr.rangeNext(x, st)
 	case *ssa.MakeChan:
-		fr.bind(x, Val{S: vc.alloc(st)})
+		ref := vc.alloc(st)
+		vc.writeCell(st, vc.ghostKey("Gh|chclosed"), ref, "false")
+		fr.bind(x, Val{S: ref})
 	case *ssa.MakeClosure:
 		// closures are opaque values; bindings are remembered for immediate calls
 		ref := vc.alloc(st)
